@@ -17,6 +17,11 @@ type RunOpts struct {
 	Cuts bool
 	// CutWeight is the relative weight of the cut action (default 2).
 	CutWeight int
+	// Faults enables the write-failure actions: the database of one side
+	// stops accepting writes during a sign / revoke / receive-revocation
+	// call, the call must fail without handing anything out, and the
+	// connection is then cut (both sides reload).
+	Faults bool
 	// NoFees disables update_fee.
 	NoFees bool
 	// AfterStep runs after every action (both sides consistent).
@@ -164,6 +169,22 @@ func (s *Sim) Run(t *rapid.T, o RunOpts) error {
 				}
 			}
 		}
+		if o.Faults && o.Cuts {
+			for x := 0; x < 2; x++ {
+				nm := sideName(x)
+				if s.CanSign(x) {
+					acts = append(acts, act{"faultSign" + nm, 1})
+				}
+				if s.CanDeliver(x) {
+					switch s.Q[x][0].(type) {
+					case *lnwire.CommitSig:
+						acts = append(acts, act{"faultRevoke" + nm, 1})
+					case *lnwire.RevokeAndAck:
+						acts = append(acts, act{"faultRecvRev" + nm, 1})
+					}
+				}
+			}
+		}
 		total := 0
 		for _, a := range acts {
 			total += a.w
@@ -225,6 +246,21 @@ func (s *Sim) Run(t *rapid.T, o RunOpts) error {
 			err = s.Drain(func() error { return after("drain-step") })
 			if err == nil && s.Aborted == "" {
 				err = s.CheckQuiescent()
+			}
+		case "faultSignA", "faultSignB", "faultRevokeA", "faultRevokeB",
+			"faultRecvRevA", "faultRecvRevB":
+
+			x := int(name[len(name)-1] - 'A')
+			err = s.DoFault(name[:len(name)-1], x)
+			if err == nil && s.Aborted == "" {
+				var co CutOpts
+				co.StripDLP[0] = rapid.Bool().Draw(t, "stripDlpA")
+				co.StripDLP[1] = rapid.Bool().Draw(t, "stripDlpB")
+				var rep *RetransmitReport
+				rep, err = s.DoCut(co)
+				if err == nil && o.AfterCut != nil {
+					err = o.AfterCut(s, rep)
+				}
 			}
 		case "cut", "cutMidSigA", "cutMidSigB":
 			if name != "cut" {
